@@ -151,15 +151,118 @@ def part_generated(ctx, cfgs):
     return n_cmp
 
 
+def narrow_crash(exc, cfg, src):
+    """smallest sub-configuration (single flag / no flag, same level) that still raises the same exception type"""
+    from vlib.configs import Config, compile_src
+
+    def crashes(c):
+        try:
+            compile_src(src, c, formats=("bytecode",))
+            return False
+        except Exception as e:
+            return type(e).__name__ == exc
+    base = Config(cfg.venom, cfg.level, "prague" if cfg.evm not in R.PRE_CANCUN else cfg.evm)
+    if crashes(base):
+        return base, "no-flags"
+    for f in cfg.flags:
+        c = Config(cfg.venom, cfg.level, base.evm, flags=[f])
+        if crashes(c):
+            return c, f
+    if cfg.inline_threshold is not None:
+        c = Config(cfg.venom, cfg.level, base.evm, inline_threshold=cfg.inline_threshold)
+        if crashes(c):
+            return c, f"inline_threshold={cfg.inline_threshold}"
+    return cfg, "+".join(cfg.flags) or cfg.name
+
+
 def report_crash(ctx, exc, cfg, msg, src, count):
     """a program accepted by the reference configuration that crashes the compiler under another configuration"""
-    key = f"C02:crash:{exc}:{'+'.join(cfg.flags) if cfg.flags else cfg.name}"
-    if exc == "AssertionError" and "disable_sccp" in cfg.flags:
+    first_line = (msg.strip().splitlines() or [""])[0][:60]
+    try:
+        cfg, why = narrow_crash(exc, cfg, src)
+    except Exception:
+        why = "+".join(cfg.flags) or cfg.name
+    key = f"C02:crash:{exc}:{why}:{first_line}"
+    if exc == "AssertionError" and why == "disable_sccp":
         key = "C02:disable_sccp-branch-optimization-assert"
     ctx.violation("failing-input", f"{exc} while compiling under {cfg.name} a program the default configuration accepts",
                   {"config": cfg.name, "settings": str(cfg.settings()), "exception": exc, "message": msg, "source": src,
                    "occurrences_this_run": count,
                    "expected": "same observable behaviour as under the default configuration (C02)"}, key=key)
+
+
+# ---------------------------------------------------------------------------------------------- N-way: effect-order matrix
+def part_matrix(ctx, cfgs):
+    """the C08 position x effect matrix, compared configuration-against-configuration (no oracle)"""
+    from vlib.c08_gen import Builder, build_one, build_group
+    from vlib.configs import Config, compile_src
+    t0 = time.time()
+    mk = lambda salt: ctx.rng("matrix:" + salt)
+    ref = [Config(False, "gas", "prague"), Config(True, "gas", "prague")]
+    accepted = []
+    for pos in Builder.POSITIONS:
+        src = build_one(mk, pos, 0).p.vy(prune=True)
+        try:
+            for c in ref:
+                compile_src(src, c, formats=("bytecode",))
+            accepted.append((pos, 0))
+        except Exception:
+            pass
+    items = []
+    for k in range(0, len(accepted), 10):
+        p, unordered, labels = build_group(mk, accepted[k:k + 10])
+        items.append({"prog": p, "calls": [H.Call(i, []) for i in range(len(p.exts))], "labels": labels,
+                      "unordered": {i for i, u in unordered.items() if u}, "group": accepted[k:k + 10]})
+    obs = D.observe_all(items, cfgs, procs=3)
+    n_cmp = 0
+    seen = {}
+    for i, it in enumerate(items):
+        per = {}
+        for j, cfg in enumerate(cfgs):
+            st, o = obs[(i, j)]
+            if st == "exc":
+                continue   # crashes are reported by part_generated / part_corpus
+            res, sto = o
+            canon = []
+            for ci, (ok, out, logs) in enumerate(res):
+                lg = [(tuple(x.hex() for x in t), d.hex()) for t, d in logs]
+                if ci in it["unordered"]:
+                    lg = sorted(lg)
+                canon.append((ok, out.hex(), tuple(lg)))
+            per[cfg.name] = canon
+            n_cmp += len(res)
+        names = sorted(per)
+        if not names:
+            continue
+        base = per[[c.name for c in cfgs if c.name in per][0]]
+        # per test function: which configurations differ from the first configuration
+        for ci, lab in enumerate(it["labels"]):
+            differing = [n for n in names if per[n][ci] != base[ci]]
+            if not differing:
+                continue
+            cls = lab.split("_", 1)[1]
+            cls = "compare-operands" if (cls.startswith("cmp_") or cls == "if_cond") else \
+                  "bitwise-operands" if cls in ("binop_BOr", "binop_BAnd", "binop_BXor") else \
+                  "augassign-bitwise-value-order" if cls in ("aug_scalar_BXor", "aug_scalar_BOr", "aug_scalar_BAnd") else \
+                  "augassign-value-order" if cls.startswith("aug_scalar") else cls
+            key = f"C02:matrix:{cls}"
+            if key in seen:
+                seen[key] += 1
+                continue
+            seen[key] = 1
+            pos, rnd = it["group"][ci]
+            single = build_one(mk, pos, rnd).p
+            agree = [n for n in names if n not in differing]
+            ctx.violation("failing-input", f"configurations disagree on {lab}: {agree[:2]} vs {differing[:2]}",
+                          {"source": single.vy(prune=True), "call": single.exts[0].abi_sig(),
+                           "configs_a": agree, "configs_b": differing,
+                           "observed_a": str(base[ci])[:700], "observed_b": str(per[differing[0]][ci])[:700],
+                           "note": "observed inside the bundled matrix program (same test function, state from earlier tests may differ "
+                                   "from the isolated source shown)"},
+                          key=key)
+    ctx.corr["matrix"] = {"test_functions": sum(len(it["labels"]) for it in items), "calls_compared": n_cmp,
+                          "distinct_disagreements": seen, "seconds": round(time.time() - t0, 1)}
+    return n_cmp
 
 
 # ---------------------------------------------------------------------------------------------- N-way: corpus and examples
@@ -170,7 +273,7 @@ def _corpus_one(args):
     k, j = args
     job, cfg = _JOBS["jobs"][k], _JOBS["cfgs"][j]
     try:
-        return (k, j, "ok", R.observe_contract(job["src"], cfg, job["plan"], job["helper"]))
+        return (k, j, "ok", R.observe_contract(job["src"], cfg, job["plan"], job["helper"], job["abi"]))
     except Exception as e:
         return (k, j, "exc", (type(e).__name__, str(e)[:300]))
 
@@ -188,6 +291,8 @@ def load_corpus(ctx):
             src = open(f).read()
         except OSError:
             continue
+        # the snapshot reports version 0.1, so the examples' version pragmas reject it; the pragma is not a language feature
+        src = "\n".join(l for l in src.splitlines() if not (l.startswith("#pragma version") or l.startswith("# @version") or l.startswith("# pragma version")))
         jobs.append({"name": "examples/" + os.path.relpath(f, str(REPO / "examples")), "src": src, "helper": None, "min_evm": None})
     return jobs
 
@@ -209,6 +314,7 @@ def part_corpus(ctx, cfgs):
             skipped[job["name"]] = "deployment reverts"
             continue
         job["plan"] = plan
+        job["abi"] = abi
         usable.append(job)
     _JOBS = {"jobs": usable, "cfgs": cfgs}
     work = [(k, j) for k, job in enumerate(usable) for j, cfg in enumerate(cfgs)
@@ -259,6 +365,7 @@ def run(ctx):
     n1 = part_pass_order(ctx)
     n2 = part_generated(ctx, cfgs)
     n3 = part_corpus(ctx, cfgs)
+    n3 += part_matrix(ctx, cfgs)
     ctx.corr["configs"] = [c.name for c in cfgs]
     ctx.corr["evaluations"] = n1 + n2 + n3
     ctx.corr["distinct_nontrivial"] = n1 + n2 + n3
